@@ -33,10 +33,10 @@ def body(run):
     nsched = run.scale(6, 40)
     for gi in range(ngeo):
         g = synth.random_geom(rng, max_src=run.scale(30, 44)) if gi % 2 else synth.aligned_geom(rng, run.scale(30, 44))
-        model = ik.MODELS[gi % 3]
+        model = ik.MODELS[(gi + 1) % 3]
         kshape = rng.choice([(3, 3), (1, 3), (5, 3)])
         with_param = gi % 4 != 3
-        pair = fz.make_pair(run.work, g, rng, smask=fz.src_mask(rng, g.src_shape, rng.choice(['none', 'holes', 'border'])), tag='c')
+        pair = fz.make_pair(run.work, g, rng, smask=fz.src_mask(rng, g.src_shape, rng.choice(['none', 'holes', 'border', 'sparse-block', 'sparse-block'])), tag='c')
         proc = rng.choice(['auto', 'auto', 'src', 'ref'])
         try:
             mbm, _nb = fz.pick_block_mem(pair['src_fn'], pair['ref_fn'], proc, rng.choice([4, 6, 9, 16]), kshape)
